@@ -312,12 +312,17 @@ def digits_of(z, e=None):
         p *= 10
     if nd is None:
         raise Unmodelled('str(int) with more than %d digits' % maxd)
-    out = []
-    for i in range(nd - 1, -1, -1):
-        d = fdiv(z, z3.IntVal(10 ** i))
-        d = d - 10 * fdiv(d, z3.IntVal(10))
-        out.append(z3.simplify(d + 48))
-    return out
+    # digits as fresh bounded integers tied to z by one linear equation (unique decomposition)
+    ds = []
+    total = z3.IntVal(0)
+    for i in range(nd):
+        d = z3.Int('dig%d_%d' % (e.nfresh, i))
+        e.bounded(d, 1 if (i == 0 and nd > 1) else 0, 9)
+        ds.append(d)
+        total = total * 10 + d
+    e.nfresh += 1
+    e.add(total == z)
+    return [d + 48 for d in ds]
 
 
 def str_of_int(x):
